@@ -4,6 +4,7 @@
    reported with the prefix "HARNESS:" (the Python side turns them into a machinery failure, never a verdict). *)
 EXTENDS TraceLib, R_DramData
 Cfg == Trace[1]
+BadCap == 3000
 VARIABLES l, s, bad
 vars == <<l, s, bad>>
 TInit == l = 2 /\ s = InitDD(Cfg) /\ bad = {}
@@ -11,7 +12,10 @@ TNext == /\ l <= NLines
          /\ l' = l + 1
          /\ LET r == DStep(Cfg, s, Trace[l]) IN
             /\ s' = r.s
-            /\ bad' = bad \cup {<<l>> \o x : x \in r.bad} \cup {<<l, "HARNESS: " \o x[1]>> \o Tail(x) : x \in r.env}
+            \* Diagnostics are kept up to BadCap entries (a rejected trace stays rejected; the cap only bounds the cost of
+            \* carrying tens of thousands of identical complaints, e.g. a wholly misplaced init image); harness clauses always kept.
+            /\ bad' = (IF Cardinality(bad) >= BadCap THEN bad ELSE bad \cup {<<l>> \o x : x \in r.bad})
+                       \cup {<<l, "HARNESS: " \o x[1]>> \o Tail(x) : x \in r.env}
 TSpec == TInit /\ [][TNext]_vars
 AtEnd == (l = NLines + 1) => WriteVerdict(l - 1, bad, [nAct |-> s.nAct, nPre |-> s.nPre, nRd |-> s.nRd, nWr |-> s.nWr,
                                                       written |-> Cardinality(DOMAIN s.mem)])
